@@ -10,10 +10,11 @@ use std::{
 use crate::{
     context::CommonContext,
     instruction::operation::Operation,
-    parser::{
-        parse_iter, CodePoint, Item, Macro, ParseContext, ParseResult, Paths, Segment, SegmentType,
-    },
+    parser::{parse_iter, CodePoint, Item, Macro, ParseContext, ParseResult, Paths, Segment},
 };
+
+#[cfg(test)]
+use crate::parser::SegmentType;
 
 use crate::instruction::InstructionOps;
 use failure::{bail, Error};
@@ -102,20 +103,14 @@ pub fn build_pass_0(
         included_files: Rc::new(Cell::new(0)),
     };
 
+    // macro calls are expanded wherever they stand, in the data and eeprom segments too
     for segment in parsed.segments {
-        match segment.t {
-            SegmentType::Data | SegmentType::Eeprom => {
-                context.add_segment(segment.clone());
-            }
-            SegmentType::Code => {
-                context.add_segment(Segment {
-                    address: segment.address,
-                    t: segment.t,
-                    items: vec![],
-                });
-                pass0_internal(segment.clone(), &context, &parsed.macroses, 0)?;
-            }
-        }
+        context.add_segment(Segment {
+            address: segment.address,
+            t: segment.t,
+            items: vec![],
+        });
+        pass0_internal(segment.clone(), &context, &parsed.macroses, 0)?;
     }
 
     Ok(context.as_pass0_result())
@@ -167,16 +162,12 @@ fn pass0_internal(
                         }
                         pass0_internal(segments[0].clone(), context, macroses, depth + 1)?;
                         for segment in segments.iter().skip(1) {
-                            if segment.t == SegmentType::Code {
-                                context.add_segment(Segment {
-                                    address: segment.address,
-                                    t: segment.t,
-                                    items: vec![],
-                                });
-                                pass0_internal(segment.clone(), context, macroses, depth + 1)?;
-                            } else {
-                                context.add_segment(segment.clone());
-                            }
+                            context.add_segment(Segment {
+                                address: segment.address,
+                                t: segment.t,
+                                items: vec![],
+                            });
+                            pass0_internal(segment.clone(), context, macroses, depth + 1)?;
                         }
                     }
                 }
@@ -200,9 +191,10 @@ fn macro_expand(
     context: &Pass0Context,
     macroses: &HashMap<String, Vec<(CodePoint, String)>>,
 ) -> Result<Vec<Segment>, Error> {
+    // the body starts in the segment the call stands in
     let segments = Rc::new(RefCell::new(vec![Rc::new(RefCell::new(Segment {
         items: vec![],
-        t: SegmentType::Code,
+        t: context.last_segment().unwrap().borrow().t,
         address: context.last_segment().unwrap().borrow().address,
     }))]));
     if let Some(macro_body) = macroses.get(macro_name) {
